@@ -888,9 +888,11 @@ class TreeTransform(Generic[TreeFnT]):
     if agg_only:
       transforms = [t for t in transforms if t.agg_fns]
     runners = []
-    for transform in transforms:
+    for i, transform in enumerate(transforms):
+      # The shard configures the data source of the chain, which is the data
+      # source of its first transform (see ChainedRunner.data_source).
       runner = TransformRunner.from_transform(
-          transform, agg_only=agg_only, input_state=shard
+          transform, agg_only=agg_only, input_state=shard if i == 0 else None
       )
       runners.append(runner)
     return ChainedRunner(runners)
